@@ -65,7 +65,14 @@ func (o aop) enc() string {
 	return VL(VS(o.k))
 }
 
-func applyArgs(a *utils.Args, o aop) []string {
+// applyArgs performs one call; a Go panic inside the call (Parse of "%" followed by byte 0xFF
+// indexes past hex2intTable) is reported as the observation spanic.
+func applyArgs(a *utils.Args, o aop) (obs []string) {
+	defer func() {
+		if p := recover(); p != nil {
+			obs = []string{VS("panic")}
+		}
+	}()
 	switch o.k {
 	case "add":
 		a.Add(string(o.key), string(o.val))
@@ -107,6 +114,8 @@ func applyArgs(a *utils.Args, o aop) []string {
 	return nil
 }
 
+func panicked(obs []string) bool { return len(obs) > 0 && obs[len(obs)-1] == VS("panic") }
+
 func visitArgs(a *utils.Args) string {
 	var items []string
 	a.VisitAll(func(k, v []byte) { items = append(items, VL(VB(k), VB(v))) })
@@ -126,6 +135,11 @@ func genParseInput(r *rand.Rand, p *keyPool) []byte {
 	b := make([]byte, r.Intn(30))
 	for i := range b {
 		b[i] = alphabet[r.Intn(len(alphabet))]
+	}
+	if len(b) > 3 && r.Intn(12) == 0 {
+		// "%" followed by 0xFF: hexbyte2int panics; the object must still recycle cleanly
+		i := r.Intn(len(b) - 2)
+		b[i], b[i+1+r.Intn(2)] = '%', 0xFF
 	}
 	return b
 }
@@ -207,6 +221,9 @@ func runArgsCase(cfg *RunCfg) *history {
 		h.later = append(h.later, o.enc())
 		h.obs = append(h.obs, applyArgs(rec, o)...)
 		h.fresh = append(h.fresh, applyArgs(fresh, o)...)
+		if panicked(h.obs) || panicked(h.fresh) {
+			break
+		}
 	}
 	h.human = fmt.Sprintf("args dirty=%s later=%s", clip(strings.Join(h.dirty, " ")), clip(strings.Join(h.later, " ")))
 	return h
@@ -551,11 +568,17 @@ func runMsgCase(cfg *RunCfg, st *Stats) *history {
 		h.later = append(h.later, o.enc())
 		h.obs = append(h.obs, applyMsg(rec, o)...)
 		h.fresh = append(h.fresh, applyMsg(fresh, o)...)
+		if panicked(h.obs) || panicked(h.fresh) {
+			break
+		}
 	}
 	h.human = fmt.Sprintf("msg dirty=%s later=%s", clip(strings.Join(h.dirty, " ")), clip(strings.Join(h.later, " ")))
-	if strings.HasSuffix(h.obs[len(h.obs)-2], "err") {
+	switch {
+	case panicked(h.obs):
+		st.Count("msg-later:panicked")
+	case strings.HasSuffix(h.obs[len(h.obs)-2], "err"):
 		st.Count("msg-pack:error")
-	} else {
+	default:
 		st.Count("msg-pack:ok")
 	}
 	return h
